@@ -115,11 +115,60 @@ def extract_scatter(effs, target):
     tr = transpose_scatter(v)
     if tr is not None:
         return Scatter(None, [tr + (st,)], st, problems)
+    fg = filter_groups(v)
+    if fg is not None:
+        return Scatter(fg[0], [fg[1] + (st,)], st, problems)
     ov = dict_overwrite(v)
     if ov is not None:
         problems.append(('overwrite', ov, st))
         return Scatter(None, [], st, problems)
     raise Unknown('value assigned to %s is not a recognised group-by: %s' % (show(target), show(v)[:100]))
+
+
+def filter_groups(v):
+    """[[x for x in CHAIN if key(x) == f(r)] for r in range(N)]  ==  the scatter of every x of CHAIN under the r that solves
+    the equation (f linear in r), N slots; the order inside a group is the order of CHAIN, as with appends"""
+    from .canon import lin_parts, lin_build
+    if not (v[0] == 'comp' and len(v[1]) == 1 and v[1][0][1] == TRUE):
+        return None
+    r = v[1][0][0]
+    d = r[3]
+    if not (d[0] == 'call' and d[1] == S('range') and len(d[2]) in (1, 2)):
+        return None
+    lo = C(0)
+    size = d[2][0]
+    if len(d[2]) == 2:
+        from .canon import lin_const
+        lo = d[2][0]
+        if not (lo[0] == 'const' and isinstance(lo[1], int)):
+            return None
+        size = lin_const(BIN('Sub', d[2][1], lo)) or BIN('Sub', d[2][1], lo)
+    inner = v[2]
+    if inner[0] == 'call' and inner[1] == S('list') and len(inner[2]) == 1:
+        inner = inner[2][0]
+    if inner[0] != 'comp' or inner[2] != inner[1][-1][0]:
+        return None
+    chain = inner[1]
+    x, g = chain[-1]
+    conj = list(g[2]) if (g[0] == 'bool' and g[1] == 'and') else [g]
+    eqs = [c for c in conj if c[0] == 'cmp' and c[1] == 'Eq' and contains(c, lambda y: y == r)]
+    if len(eqs) != 1 or any(contains(c, lambda y: y == r) for c in conj if c is not eqs[0]) or any(contains(b[3], lambda y: y == r) or contains(gg, lambda y: y == r) for b, gg in chain[:-1]):
+        return None
+    la, ca = lin_parts(eqs[0][2])
+    lb, cb = lin_parts(eqs[0][3])
+    # la + ca == lb + cb ; r occurs once with sign s on one side
+    atoms = [(s_, a) for s_, a in la] + [(-s_, a) for s_, a in lb]
+    c = ca - cb
+    rs = [(s_, a) for s_, a in atoms if a == r]
+    if len(rs) != 1 or any(contains(a, lambda y: y == r) for s_, a in atoms if a != r):
+        return None
+    s_r = rs[0][0]
+    others = [(s_, a) for s_, a in atoms if a != r]
+    # s_r * r + others + c == 0   ->   r = -(others + c) / s_r
+    key = lin_build([(-s_ * s_r, a) for s_, a in others], -c * s_r - lo[1])       # slot index = r - lo
+    rest = [cc for cc in conj if cc is not eqs[0]]
+    chain2 = chain[:-1] + ((x, AND(*rest) if rest else TRUE),)
+    return size, ('appendidx', key, x, chain2)
 
 
 _tr_ids = itertools.count(10 ** 6)
